@@ -61,6 +61,9 @@ def _copy_h5_element(
         if current_location not in excluded_datasets:
             src_dataset = src_handle[current_location]
             chunks = src_dataset.chunks
+            if chunks is not None and 0 in src_dataset.shape:
+                # an empty dataset cannot be chunked
+                chunks = None
             if chunks is None:
                 dst_dataset = dst_handle.create_dataset(
                     current_location,
